@@ -283,6 +283,21 @@ def _shard(shard, col: Collector):
         explore(body, col, bound=shard[1], sub="parallel", on_exec=on_exec2, case_extra={"bound": shard[1]})
         col.sample({"kind": "parallel workers", "designs": 2, "workers": 2, "deviation_bound (faults + pre-emptions)": shard[1]}, 1)
         return
+    if shard[0] == "bigbatch":
+        # batches far larger than the enumerated ones, with a fixed script of transient failures spread over the batch
+        _, cfg, seed = shard
+        for n in (31, 32, 33, 64, 65, 100, 129, 257):
+            for script in (lambda k: 1 if k % 7 == 1 else (2 if k % 11 == 3 else 0), lambda k: 2 if k % 2 == 0 else 0, lambda k: 1 if k in (0, n - 1, n // 2) else 0):
+                choices = [script(k) for k in range(n)]
+                while choices and choices[-1] == 0:
+                    choices.pop()
+                col.case()
+                col.nontrivial(("bigbatch", cfg, n, tuple(choices)))
+                ctx, out = run_once(body_factory(cfg, n, False, seed), choices)
+                for key, msg in out:
+                    col.violation(key + ":large-batch", "bigbatch", msg[:400], {"cfg": cfg, "n": n, "choices": choices, "seed": seed})
+        col.sample({"kind": "large batches with scripted failures", "config": cfg, "sizes": [31, 33, 65, 257]}, 1)
+        return
     if shard[0] == "worst":
         # the same protocol under the worst-case evaluator: a design that fails 1..4 times is re-sampled, and what is finally
         # stored (objective value AND sensitivity, neighbours) belongs to the finally stored vector
@@ -332,6 +347,9 @@ def replay(sub, case):
         from . import c07
         ctx, out = run_once(c07.body_factory(2, False, False, "free", None), case["choices"])
         return out
+    if sub == "bigbatch":
+        ctx, out = run_once(body_factory(case["cfg"], case["n"], False, case["seed"]), case["choices"])
+        return out
     if sub == "worst":
         from . import c14
         return [(k.replace("C14:worst:", "C06:worst-case-evaluator:"), m) for k, m in
@@ -358,6 +376,8 @@ def run(tier, seed):
     shards.append(("parallel", 2 if tier == "thorough" else 1))
     shards.append(("zoo", seed))
     shards.append(("worst",))
+    shards.append(("bigbatch", "unit", seed))
+    shards.append(("bigbatch", "offgrid", seed))
     shards.append(("unit_surrogate_trained", 2, False, None, seed))
     shards.append(("neg_prec_surrogate_step2", 2, False, None, seed))
     shards.append(("unit", 1, False, None, seed, False, True))      # the scalar bridge: every pattern for 1 and 2 calls
